@@ -20,6 +20,9 @@ import (
 // The report written by ProfileCommand is judged by the same `report` verb as the unit-level stream, with
 // the access counts taken from an independent run of the same program (so anything the command does
 // between the end of the program and the report — e.g. a memory dump — must not show in the counts).
+// The request also carries the program itself (`prog:<hex>`): the driver runs it through the specification and
+// judges the numbers of the report against the ABSOLUTE counts of that run (fetches + reads + writes while the
+// program ran) — the independent run above goes through the same command code and shares its mistakes.
 // A dump specification that must be rejected is combined with a trap script that leaves a marker file:
 // the marker tells whether the program ran before the specification was validated.
 
@@ -217,7 +220,7 @@ func e2eCase(r *rng.R, dir string) []string {
 	}
 	os.Remove(marker)
 	count("e2e.profile." + dumpKind)
-	lines = append(lines, fmt.Sprintf("report %s %d %04x | %s | %s | %s | %s => %s %s", strategy, prcnt, start, strings.Join(raws, ","), hex.EncodeToString(vals), labReq, labFile, cutRes, out))
+	lines = append(lines, fmt.Sprintf("report %s %d %04x | %s | %s | %s | %s | prog:%s => %s %s", strategy, prcnt, start, strings.Join(raws, ","), hex.EncodeToString(vals), labReq, labFile, hex.EncodeToString(code), cutRes, out))
 
 	// ---- a dump specification that must be rejected before anything runs
 	if trap && !abortStream {
